@@ -18,6 +18,8 @@ import (
 	"net"
 	"os"
 	"reflect"
+	"sort"
+	"strings"
 	"time"
 
 	"github.com/Tnze/go-mc/chat/sign"
@@ -258,7 +260,7 @@ func stEntries(rng *rand.Rand, nEach int) (rs []stReadEntry, ws []stWriteEntry) 
 		fmtName := []string{"file", "network"}[i%2]
 		doc := nbtDocBytes(fmtName, []byte("nm"), tree)
 		in := append(append([]byte{}, doc...), 7, 7)
-		for _, target := range []string{"any", "raw", "dynbt", "snbt", "shaped"} {
+		for _, target := range []string{"any", "raw", "dynbt", "snbt", "shaped", "map", "map-raw"} {
 			tg := target
 			net := fmtName == "network"
 			var sh *goType
@@ -283,6 +285,19 @@ func stEntries(rng *rand.Rand, nEach int) (rs []stReadEntry, ws []stWriteEntry) 
 					var v nbt.RawMessage
 					_, err := d.Decode(&v)
 					return fmt.Sprint(v.Type, sha(v.Data)), -1, err
+				case "map": // typed map targets have a loop of their own over the entries of a compound
+					var v map[string]any
+					_, err := d.Decode(&v)
+					return mustJSON(projectAny(v)), -1, err
+				case "map-raw":
+					var v map[string]nbt.RawMessage
+					_, err := d.Decode(&v)
+					ks := make([]string, 0, len(v))
+					for k, e := range v {
+						ks = append(ks, fmt.Sprint(k, e.Type, sha(e.Data)))
+					}
+					sort.Strings(ks)
+					return strings.Join(ks, "|"), -1, err
 				case "dynbt":
 					var v dynbt.Value
 					_, err := d.Decode(&v)
